@@ -1,5 +1,6 @@
 import ClapProofs.C01
 import ClapProofs.C04
+import ClapProofs.C07
 import ClapProofs.C13
 import ClapProofs.C14
 import ClapProofs.C20
